@@ -517,6 +517,137 @@ def run_cipher_cells(ctx):
                 sess.close()
 
 
+def apply_debug_config(v, cfg, tag):
+    """Receiver-side debug configuration on the victim (public API only)."""
+    import logging
+
+    if cfg in ("hexdump", "hexdump_logchannel_debug"):
+        v.set_hexdump(True)
+    if cfg in ("logchannel_debug", "hexdump_logchannel_debug"):
+        name = "vf.c12.victim." + tag
+        lg = logging.getLogger(name)
+        lg.setLevel(logging.DEBUG)
+        lg.propagate = False
+
+        class Fmt(logging.Handler):
+            n = 0
+
+            def emit(self, record):
+                Fmt.n += 1
+                self.format(record)  # really render every record, as a file/stream handler would
+
+        h = Fmt()
+        h.setFormatter(logging.Formatter("%(levelname)s %(name)s %(message)s"))
+        lg.addHandler(h)
+        v.set_log_channel(name)
+        return Fmt
+    return None
+
+
+def rekey_now(sess, times=1):
+    """Complete `times` re-keys started by the victim. True when done and both sides are out of the exchange."""
+    import threading
+
+    v = sess.att.victim
+    for k in range(times):
+        th = threading.Thread(target=lambda: v.renegotiate_keys(), daemon=True)
+        before = len(sess.att.victim_msgs("in", types=(21,)))
+        th.start()
+        th.join(90)
+        if th.is_alive() or not wait_until(lambda: not v.in_kex and not sess.att.att.in_kex
+                                           and len(sess.att.victim_msgs("in", types=(21,))) > before, 60):
+            return False
+    return v.is_active() and not v.in_kex
+
+
+def run_type_sweep(ctx, label, role, types, setup=None, after_rekey=False, family=None):
+    """One session per (label, role); every given type that is unhandled gets one case."""
+    import paramiko.common as pc
+
+    sess = None
+    done = 0
+    for ptype in types:
+        if time.time() > ctx.deadline(220, 1350):
+            ctx.count("cases_not_run_time_cap")
+            break
+        if sess is None or not sess.usable():
+            if sess is not None:
+                sess.close()
+            sess = None
+            for attempt in range(3):
+                cand = Session(ctx, role, family=family)
+                if cand.ok:
+                    sess = cand
+                    break
+                cand.close()
+            if sess is None:
+                ctx.inconclusive("%s: handshake failed three times" % label)
+                return
+            if setup is not None:
+                setup(sess)
+            if after_rekey:
+                if not rekey_now(sess, ctx.rng.choice([1, 1, 2])):
+                    ctx.inconclusive("%s: re-key did not complete" % label)
+                    sess.close()
+                    return
+                ctx.count("%s_rekeys_completed" % label)
+                if sess.att.victim.kex_engine is not None:
+                    ctx.count("%s_kex_engine_still_set" % label)
+            sess.cell = label
+        v = sess.att.victim
+        if v.in_kex or len(v._expected_packet) > 0:
+            ctx.inconclusive("%s: victim unexpectedly inside a key exchange" % label)
+            break
+        if ptype in handled_now(v):
+            continue
+        kind = ctx.rng.choice(PAYLOAD_KINDS)
+        payload = make_payload(ctx.rng, ptype, kind, False)
+        ctx.case(("c12-sweep", label, role, ptype, kind, payload),
+                 sample=dict(stratum=label, victim_role="server" if role == "client" else "client", type=ptype,
+                             payload_kind=kind) if done == 0 and role == "client" else None)
+        done += 1
+        ctx.count("%s_cases" % label)
+        try:
+            run_case(ctx, sess, ptype, kind, payload, ptype in pc.MSG_NAMES)
+        except Exception:
+            import traceback
+
+            ctx.inconclusive("harness error in %s: %s" % (label, traceback.format_exc()[-500:]))
+            sess.dead = True
+    if sess is not None:
+        sess.close()
+
+
+def run_debug_and_kexrange(ctx):
+    jobs = []
+    for role in ("client", "server"):
+        for ci, cfg in enumerate(("hexdump", "logchannel_debug", "hexdump_logchannel_debug")):
+            # quick: every type under one of the three configurations (rotated by seed); thorough: under all three
+            types = [t for t in range(256) if not ctx.quick or (t + ctx.seed) % 3 == ci]
+            jobs.append(("debugcfg_" + cfg, role, types, cfg, False))
+        for phase in ("before", "after"):
+            jobs.append(("kexrange_%s_rekey" % phase, role, list(range(30, 50)), None, phase == "after"))
+    for j, (label, role, types, cfg, after) in enumerate(jobs):
+        # big sweeps are split over shards by type, small ones go to one shard each
+        if len(types) > 50:
+            mine = [t for t in types if ctx.mine(t + j)]
+        else:
+            mine = types if ctx.mine(j) else []
+        if not mine:
+            continue
+        fmt = {}
+
+        def setup(sess, _cfg=cfg, _label=label, _role=role):
+            if _cfg:
+                fmt["h"] = apply_debug_config(sess.att.victim, _cfg, "%s.%s.%d" % (_label, _role, ctx.shard))
+                if sess.att.victim.get_hexdump() != ("hexdump" in _cfg):
+                    ctx.inconclusive("%s: hexdump setting not applied" % _label)
+
+        run_type_sweep(ctx, label, role, mine, setup=setup if cfg else None, after_rekey=after)
+        if fmt.get("h") is not None:
+            ctx.count("debug_log_records_rendered", fmt["h"].n)
+
+
 def run_rekey_stratum(ctx):
     n = ctx.pick(1, 4)
     for rep in range(n):
@@ -603,6 +734,13 @@ def run(ctx):
     ctx.count("sessions", n_sessions)
     run_rekey_stratum(ctx)
     run_cipher_cells(ctx)
+    run_debug_and_kexrange(ctx)
+    for cfg in ("hexdump", "logchannel_debug", "hexdump_logchannel_debug"):
+        ctx.require("cell_debugcfg_%s_seq_compared" % cfg, 120 if ctx.quick else 380)
+    ctx.require("debug_log_records_rendered", 600)
+    for ph in ("before", "after"):
+        ctx.require("cell_kexrange_%s_rekey_seq_compared" % ph, 36)
+    ctx.require("kexrange_after_rekey_rekeys_completed", 2)
     for fam in ("ctr", "cbc", "gcm"):
         for st in ("strict", "nonstrict"):
             for ph in ("before", "after"):
